@@ -26,9 +26,29 @@ Proof.
   exists u0, u, r. repeat split; assumption.
 Qed.
 
-(* serialize / deserialize of any reachable sketch *)
+(* serialize / deserialize of any reachable sketch: never a panic site; and Ok whenever the estimator
+   fields pass the reader's finiteness check (est_ok, a hypothesis: see HllCodecProofs.est_fields_ok) *)
 Lemma roundtrip_never_stuck : forall lgk t cs, 4 <= lgk <= 21 -> Forall valid cs ->
-  exists s s', run_stream hip_new hip_update hip_carry lgk t cs = Ok s /\ hll_deserialize (hll_serialize s) = Ok s'.
+  exists s, run_stream hip_new hip_update hip_carry lgk t cs = Ok s /\ hll_deserialize (hll_serialize s) <> Stuck /\
+    (est_ok s -> exists s', hll_deserialize (hll_serialize s) = Ok s').
 Proof.
-  intros lgk t cs H Hv. destruct (hll_roundtrip_of_stream lgk t cs H Hv) as (s & s' & A & B & _). exists s, s'. now split.
+  intros lgk t cs H Hv. destruct (hll_roundtrip_of_stream lgk t cs H Hv) as (s & A & B). exists s. split; [assumption|].
+  split; [apply hll_deserialize_total|]. intros He. destruct (B He) as (s' & Hd & _). now exists s'.
+Qed.
+
+(* a deserialized (canonical) sketch under further updates: never a panic site *)
+Lemma deserialized_updates_never_stuck : forall bs s us, BOK bs -> hll_deserialize bs = Ok s -> image_canonical s ->
+  Forall valid us -> exists s', update_all hip_new hip_update hip_carry us s = Ok s'.
+Proof.
+  intros bs s us HB Hd Hc Hus. destruct (hll_deserialize_src_ok bs s HB Hd Hc) as (cs & HS).
+  destruct (src_updates _ _ cs s us HS Hus) as (s' & Hr & _). now exists s'.
+Qed.
+
+(* a deserialized (canonical) sketch is an admissible union input: the hypothesis uop_ok of
+   union_never_stuck and of every C03 theorem is met by what the reader returns *)
+Lemma deserialized_is_union_input : forall bs s, BOK bs -> hll_deserialize bs = Ok s -> image_canonical s ->
+  exists i, uop_ok (UMerge i s).
+Proof.
+  intros bs s HB Hd Hc. destruct (hll_deserialize_src_ok bs s HB Hd Hc) as (cs & HS).
+  exists (mkIn (sk_lgk s) (tag_flag (sk_tag s)) cs). exact HS.
 Qed.
